@@ -16,6 +16,13 @@ attribute assignment before an episode / before the final query (a learning-rate
 and the targets of every training episode (not only of the final fresh trajectory) are
 compared with the closed formula for the values reported at that moment.
 
+Caller-held modules (`reconfigured_modules_block`): the caller builds the three channel modules himself, passes them to the
+constructor, keeps the objects and re-configures them afterwards (rho / beta / alpha annealing with the modules' set_params or
+attribute assignment: before the first episode, between episodes, before the final queries).  Reference = a FusionART over
+identically configured modules that receives the same re-configuration and the same joined rows: the agent's fusion_art must
+equal it after every episode, TD targets = closed formula with Q read from the reference, get_rewards / get_action = reward
+centres / first greedy member computed from the reference.
+
 Tie: `artdrv fusion hist` on the joined rows (model `fusionKernel`), `falcon rew`,
 `falcon act`, `falcon sarsa` (models `getRewards`, `getAction`, `calcSarsa`)."""
 from __future__ import annotations
@@ -33,7 +40,9 @@ from .C10 import chans_str, snap_fusion, compare_state, same_W, fusion_spec, Act
 
 RULE = ("cases = (FALCON or TD_FALCON, channel widths, gammas, Fuzzy hyper-parameters, td_alpha, td_lambda, schedule of "
         "td_alpha / td_lambda re-assignments between episodes, earlier "
-        "episodes, trajectory, action space, optimality); a case is non-trivial when the trajectory has >= 2 "
+        "episodes, re-configurations (rho / alpha / beta per channel, set_params or attribute assignment, before which episode "
+        "/ before the queries) of the module objects the caller passed to the constructor, "
+        "trajectory, action space, optimality); a case is non-trivial when the trajectory has >= 2 "
         "transitions and the model >= 2 categories; distinct by hash of the whole tuple")
 
 GAM3 = [[0.25, 0.25, 0.5], [0.5, 0.25, 0.25], [0.375, 0.375, 0.25], [0.5, 0.5, 0.0], [0.25, 0.5, 0.25]]
@@ -307,12 +316,214 @@ def near_tie_block(ctx):
                             cov.hit(f"near-tie:get_action-{opt}-rewards-of-order-1e-17")
 
 
+
+# ------------------------------------------------------------------ modules re-configured by the caller after construction
+def held_agent(name, sp, dims, gam, ds_, da, td):
+    """the caller's workflow: he instantiates the three channel modules himself, hands them to the agent's constructor and
+    KEEPS the objects (to anneal them later); returns (agent, the caller's module objects)"""
+    from .. import impl
+    with quiet():
+        mods = [make(s) for s in sp]
+        est = getattr(impl, name)(*mods, gamma_values=list(gam), channel_dims=list(dims), **td)
+    return with_bounds(est, ds_, da), mods
+
+
+def draw_reconfiguration(r, current, rho_was_zero, queries_only=False):
+    """one annealing step: for 1-3 channels new values of a non-empty subset of rho / beta / alpha (accepted by
+    validate_params, standing assumption alpha > 0 when rho = 0 kept), applied with set_params or attribute assignment"""
+    step = []
+    for k in sorted(r.sample(range(3), r.choice([1, 1, 2, 3]))):
+        p = gen.fuzzy_params(r)
+        # (prediction reads only the choice parameter alpha: a step taken just before the queries always moves it)
+        keys = r.choice([["alpha"], ["alpha"], ["rho", "alpha", "beta"]] if queries_only else
+                        [["rho"], ["rho"], ["beta"], ["rho", "beta"], ["rho", "beta"], ["alpha"], ["rho", "alpha", "beta"]])
+        new = {key: p[key] for key in keys}
+        after = dict(current[k], **new)
+        # standing assumption, read over the module's whole life: alpha > 0 unless the channel's vigilance has ALWAYS been
+        # > 0 (a channel that ever learned with rho = 0 may hold an all-zero weight, for which alpha = 0 divides 0 / 0)
+        if after["alpha"] == 0.0 and (after["rho"] == 0.0 or rho_was_zero[k]):
+            new["alpha"] = after["alpha"] = 2.0 ** -10
+        if all(current[k][key] == v for key, v in new.items()):
+            new = {"rho": r.choice([v for v in gen.DYADIC_RHO if v != current[k]["rho"] and (v > 0 or after["alpha"] > 0)])}
+            after = dict(current[k], **new)
+        rho_was_zero[k] = rho_was_zero[k] or after["rho"] == 0.0
+        current[k] = after
+        step.append({"channel": k, "how": r.choice(["set_params", "set_params", "setattr"]), "params": new})
+    return step
+
+
+def apply_reconfiguration(step, modules):
+    for ch in step:
+        m = modules[ch["channel"]]
+        with quiet():
+            if ch["how"] == "set_params":
+                m.set_params(**ch["params"])
+            else:
+                for key, v in ch["params"].items():
+                    setattr(m, key, v)
+
+
+def reconfigured_modules_block(ctx):
+    """The caller re-configures the module objects he passed to the constructor (rho / beta / alpha annealing between
+    episodes, before the first episode, before the final queries) through the modules' own public set_params / attributes.
+    The property's statement, executed against a reference FusionART over identically configured and identically
+    re-configured modules: after every episode the agent's fusion_art equals the reference trained on the joined rows
+    (for TD-FALCON: on the joined SARSA rows, whose targets are the closed formula with Q read from the REFERENCE map);
+    get_rewards = reward centre of the category the reference predicts with the reward channel withheld; get_action =
+    first arg-max / arg-min over the action space of those reference rewards."""
+    cov = ctx.cov
+    tag = ":modules-reconfigured-by-caller"
+    for i in range(ctx.scale(160, 1600)):
+        r = gen.rng_for(ctx.seed, "C16-reconf", i)
+        name = "TD_FALCON" if i % 2 else "FALCON"
+        spec, sp, dims, gam, ds_, da = build(r, name)
+        td = {k: spec[k] for k in ("td_alpha", "td_lambda") if k in spec}
+        n_ep = r.randint(1, 4)
+        lens = [r.randint(1 if name == "TD_FALCON" else 2, 6) for _ in range(n_ep)]
+        sched, episodes = [], []
+        rep = {"spec": spec, "module_reconfiguration": sched, "episodes": episodes,
+               "note": "the modules are built by the caller, passed to the constructor and re-configured on the caller's objects"}
+        try:
+            est, mods = held_agent(name, sp, dims, gam, ds_, da, td)
+            twin = fusion_twin(sp, dims, gam, ds_, da)          # reference: receives the same re-configuration
+            stale = fusion_twin(sp, dims, gam, ds_, da)         # never re-configured (coverage evidence only)
+        except Exception as e:
+            ctx.issue("violation", f"{name}.__init__:{exc_enum(e)}{tag}", repr(e), rep)
+            continue
+        current = [dict(rho=s["rho"], alpha=s["alpha"], beta=s["beta"]) for s in sp]
+        rho_was_zero = [s["rho"] == 0.0 for s in sp]
+
+        def reconfigure(when):
+            step = draw_reconfiguration(r, current, rho_was_zero, queries_only=when == "final queries")
+            sched.append({"before": when, "changes": step})
+            apply_reconfiguration(step, mods)                   # the objects the caller holds
+            apply_reconfiguration(step, twin.modules)
+            for ch in step:
+                cov.hit(f"caller-reconfigures-module:{ch['how']}:{'+'.join(sorted(ch['params']))}")
+                cov.hit(f"caller-reconfigures-channel-{ch['channel']}")
+
+        ok, changed_training = True, False
+        for e_i, L in enumerate(lens):
+            S, A, R = trajectory(r, L, ds_, da)
+            episodes.append((S, A, R))
+            trained = hasattr(twin.modules[0], "W")
+            if (e_i > 0 and r.random() < 0.8) or (e_i == 0 and r.random() < 0.3):
+                reconfigure(f"episode {e_i}")
+                cov.hit("caller-reconfigures-before-" + ("first-episode" if e_i == 0 else "later-episode"))
+            try:
+                if name == "FALCON":
+                    use_fit = e_i == 0 and r.random() < 0.4 or r.random() < 0.1
+                    J = np.hstack([S, A, R])
+                    with quiet():
+                        (est.fit if use_fit else est.partial_fit)(S, A, R)
+                else:
+                    use_fit = False
+                    ssr = r.choice([None, 0.25, 1.0]) if L == 1 else None
+                    rep.setdefault("episode_ssr", []).append(ssr)
+                    al, la = float(est.td_alpha), float(est.td_lambda)
+                    if L > 1:
+                        Q = expected_rewards(twin, S, A)[0].reshape(-1) if trained else np.zeros(L)
+                        expT = sarsa_closed(al, la, Q, (R[:, 0] + (1 - R[:, 1])) / 2)
+                    else:
+                        expT = sarsa_expected(est, trained, S, A, R, ssr)[0]
+                    with quiet():
+                        Sf, Af, T = est.calculate_SARSA(S, A, R, single_sample_reward=ssr)
+                    if not targets_equal(S, A, Sf, Af, T, expT):
+                        ctx.issue("violation", "TD_FALCON.calculate_SARSA:!=closed-formula" + tag,
+                                  f"episode {e_i}: targets {np.asarray(T).tolist()} expected "
+                                  f"{[[float(v) for v in row] for row in expT]} = clip(Q+alpha(r+lambda Q'-Q)) with Q from a "
+                                  f"FusionART over identically re-configured modules (alpha {al}, lambda {la}, trained {trained}; "
+                                  f"re-configurations so far: {sched})", rep)
+                        ok = False
+                        break
+                    cov.hit("reconf:td-episode-targets==closed-formula")
+                    J = np.hstack([Sf, Af, np.asarray(T, dtype=float)])
+                    with quiet():
+                        est.partial_fit(S, A, R, single_sample_reward=ssr)
+                with quiet():
+                    (twin.fit if use_fit else twin.partial_fit)(J)
+                    (stale.fit if use_fit else stale.partial_fit)(J)
+            except Exception as e:
+                ctx.issue("violation", f"{name}.partial_fit:{exc_enum(e)}{tag}", f"episode {e_i} raised {e!r}", rep)
+                ok = False
+                break
+            if not eq_fusion(est.fusion_art, twin):
+                sa, sb = snap_fusion(est.fusion_art), snap_fusion(twin)
+                ctx.issue("violation", f"{name}.{'fit' if use_fit else 'partial_fit'}:!=FusionART-on-joined-rows{tag}",
+                          f"after episode {e_i} the agent's fusion_art ({len(sa['W'])} categories, labels {sa['labels']}) differs "
+                          f"from a FusionART over identically configured and identically re-configured modules trained on the "
+                          f"same joined rows ({len(sb['W'])} categories, labels {sb['labels']}); re-configurations of the "
+                          f"caller's module objects so far: {sched}", rep)
+                ok = False
+                break
+            cov.hit("reconf:fusion_art==FusionART(joined, same re-configuration)")
+            if sched and not eq_fusion(twin, stale):
+                changed_training = True
+        ncat = len(twin.W) if hasattr(twin.modules[0], "W") else 0
+        cov.case((spec, [[x.tolist() for x in e_] for e_ in episodes], repr(sched)), bool(sched) and ncat >= 2)
+        if not ok:
+            continue
+        if changed_training:
+            cov.hit("reconf:re-configuration-changes-what-is-learned")
+        # ------------------------------------------------ queries, possibly after one more re-configuration
+        before_queries = None
+        if r.random() < 0.6:
+            before_queries = deepcopy(twin)
+            reconfigure("final queries")
+            cov.hit("caller-reconfigures-before-queries")
+        if not sched:
+            cov.hit("reconf:control-without-re-configuration")
+        nq = r.randint(1, 4)
+        Sq, Aq, _ = trajectory(r, nq, ds_, da)
+        if r.random() < 0.5:
+            Sq[0], Aq[0] = episodes[0][0][0], episodes[0][1][0]
+        rq = dict(rep, S=Sq, A=Aq)
+        try:
+            with quiet():
+                got = est.get_rewards(Sq, Aq)
+            exp, C = expected_rewards(twin, Sq, Aq)
+            if got.shape != (nq, 1) or not np.array_equal(got, exp):
+                ctx.issue("violation", f"{name}.get_rewards:!=reward-centre-of-predicted-category{tag}",
+                          f"get_rewards {got.tolist()} expected {exp.tolist()} (categories {C} of a FusionART over identically "
+                          f"re-configured modules; re-configurations: {sched})", rq)
+                continue
+            cov.hit("reconf:get_rewards==centre")
+            if before_queries is not None and not np.array_equal(expected_rewards(before_queries, Sq, Aq)[0], exp):
+                cov.hit("reconf:re-configuration-changes-predicted-rewards")
+        except Exception as e:
+            ctx.issue("violation", f"{name}.get_rewards:{exc_enum(e)}{tag}", f"raised {e!r}", rq)
+            continue
+        for t in range(2):
+            state = Sq[r.randrange(nq)]
+            default = r.random() < 0.3
+            space = None if default else gen.grid_rows(r, r.randint(1, 5), da, style=r.choice(["coarse", "dups", "uniform"]))
+            opt = r.choice(["max", "min"])
+            rp = dict(rep, state=state, space=space, optimality=opt)
+            try:
+                with quiet():
+                    act = est.get_action(state, action_space=None if default else space.copy(), optimality=opt)
+                    sp_used = np.array(twin.get_channel_centers(1)) if default else space
+                rew = expected_rewards(twin, np.repeat(state.reshape(1, -1), len(sp_used), axis=0), gen.cc(sp_used))[0].reshape(-1)
+            except Exception as e:
+                ctx.issue("violation", f"{name}.get_action:{exc_enum(e)}{tag}", f"raised {e!r}", rp)
+                continue
+            rew_l = [float(v) for v in rew]
+            idx = rew_l.index(max(rew_l) if opt == "max" else min(rew_l))
+            if not np.array_equal(np.asarray(act), sp_used[idx]):
+                ctx.issue("violation", f"{name}.get_action:not-first-greedy{tag}",
+                          f"get_action(optimality={opt!r}) returned {np.asarray(act).tolist()} but the first {opt} of the rewards "
+                          f"{rew_l} predicted by a FusionART over identically re-configured modules is member {idx} = "
+                          f"{sp_used[idx].tolist()} (re-configurations: {sched})", rp)
+            else:
+                cov.hit(f"reconf:get_action-{opt}-{'default' if default else 'explicit'}")
+
+
 def prepare(ctx):
     """Translator tie (see gen_tie.py): the source of this slice is re-translated to Lean on every run
     (harness/artv/rtrans.py) and proved equal to the model the property theorems are about"""
     from .gen_tie import gen_prepare, extra_theorems
-    from .. import rtrans
-    gen_prepare(ctx, extra_theorems("rtrans"), rtrans.COVERS)
+    from .. import rtrans, mtrans
+    gen_prepare(ctx, extra_theorems("rtrans") + extra_theorems("mtrans"), rtrans.COVERS + "; " + mtrans.COVERS)
 
 def run(ctx):
     cov = ctx.cov
@@ -320,6 +531,9 @@ def run(ctx):
         "modules are prepared with identity column bounds (documented workflow: prepare_data first)",
         "reward channel = one complement-coded scalar (width 2); wider reward channels (flat arg-max) are outside",
         "'r alone before any training' is read as Q = 0 in the formula, i.e. the target is clip(td_alpha * r)",
+        "re-configuration of caller-held modules stays inside validate_params and inside the standing assumption alpha > 0 "
+        "for rho = 0, read over the module's life: alpha = 0 only for a channel whose vigilance has always been > 0 (a "
+        "channel trained at rho = 0 can hold an all-zero weight, and FuzzyART's choice function is 0 / 0 there for alpha = 0)",
     ]
     N = ctx.scale(700, 7000)
     lines, metas = [], []
@@ -543,6 +757,8 @@ def run(ctx):
             cov.sample({"class": name, "spec": spec, "episodes": lens, "ncat": ncat})
     # ---------------------------------------------------- reward maps with distinct rewards < 1e-16 apart
     near_tie_block(ctx)
+    # ---------------------------------------------------- modules re-configured by the caller after construction
+    reconfigured_modules_block(ctx)
     # ---------------------------------------------------- model tie
     outs = run_driver(lines)
     for line, out, (kind, i, exp, rp) in zip(lines, outs, metas):
